@@ -1090,7 +1090,7 @@ func runFollow(c FollowCase, root string) (violation string, stats map[string]in
 		} else if prev == 0 && st.Commit >= 2 {
 			content[2] = true
 		}
-		for _, p := range []uint32{lock - 1, lock + 1, st.Commit} {
+		for _, p := range []uint32{lock - 1, lock + 1, 65536, 65537, 65538, st.Commit} {
 			if p > prev && p <= st.Commit && p != lock {
 				content[p] = true
 			}
@@ -1566,7 +1566,7 @@ func main() {
 	o := hx.ParseFlags("C17")
 	slog.SetDefault(quiet) // a Replica without a DB logs through the default logger
 	res := hx.NewResult(o, "c17: real writeLTXFromDB/writeLTXFromWAL on sparse files across the lock page vs Lean emittedFromDB/emittedFromWAL + restore oracle")
-	res.Rule = "follow-mode family: Restore(Follow=true) over synthesised growth-complete LTX replicas (real ltx.Encoder) whose database jumps in one applied file from a few pages to lockPgno-1 / lockPgno / lockPgno+1 / lockPgno+3 and shrinks back across the boundary, as initial restore, as L0 files applied by the follow loop and as level-1 gap-fill files; after every applied file: follower size = commit*pageSize, lock page present and zero, every page equals the replicated state, and (at lock-page-last states and at the end) byte-equal to a plain Restore(TXID=sidecar); file-vs-WAL family: database FILE below / exactly at / just past the lock page while the WAL's commit size is beyond it, on the hook-level snapshot writer (sparse files) and on real SQLite databases (sparse file with patched header page count, growth across the lock page in the uncheckpointed WAL) through first sync after open, verify-triggered re-snapshot after a WAL restart, DB.Snapshot, DB.SnapshotReader, Restore (latest and snapshot-only) with page compare and lock-page scan of every replicated file; incremental path: for each of the 8 page sizes, seeded cases with (prevCommit, commit) placing the lock page inside / last / just beyond / growth across the boundary in one sync / shrink across it / growth from the lock page, WAL page sets around the boundary (rarely including the lock page itself: expected encoder refusal); snapshot path: sparse databases of 1 GiB+ with the lock page inside / last / just beyond, optionally followed by an incremental file growing across the boundary, restored through ltx.Compactor + DecodeDatabaseTo and compared at every page. thorough adds all page sizes for the snapshot path and one real SQLite database > 1 GiB (page size 65536). non-trivial = every case; distinct = canonical JSON"
+	res.Rule = "beyond-4-GiB family (page size 65536, page 65537 = byte offset 2^32): incremental files whose growth pages lie just below / above the mark and one sparse snapshot of 65541+ pages with planted pages on both sides and distinct content in the low pages a 32-bit offset would alias, each page image compared with its source and the snapshot restored and compared; thorough adds a real SQLite database file > 4 GiB (first sync, Snapshot, Restore compare) and a follow-mode follower growing beyond 4 GiB; follow-mode family: Restore(Follow=true) over synthesised growth-complete LTX replicas (real ltx.Encoder) whose database jumps in one applied file from a few pages to lockPgno-1 / lockPgno / lockPgno+1 / lockPgno+3 and shrinks back across the boundary, as initial restore, as L0 files applied by the follow loop and as level-1 gap-fill files; after every applied file: follower size = commit*pageSize, lock page present and zero, every page equals the replicated state, and (at lock-page-last states and at the end) byte-equal to a plain Restore(TXID=sidecar); file-vs-WAL family: database FILE below / exactly at / just past the lock page while the WAL's commit size is beyond it, on the hook-level snapshot writer (sparse files) and on real SQLite databases (sparse file with patched header page count, growth across the lock page in the uncheckpointed WAL) through first sync after open, verify-triggered re-snapshot after a WAL restart, DB.Snapshot, DB.SnapshotReader, Restore (latest and snapshot-only) with page compare and lock-page scan of every replicated file; incremental path: for each of the 8 page sizes, seeded cases with (prevCommit, commit) placing the lock page inside / last / just beyond / growth across the boundary in one sync / shrink across it / growth from the lock page, WAL page sets around the boundary (rarely including the lock page itself: expected encoder refusal); snapshot path: sparse databases of 1 GiB+ with the lock page inside / last / just beyond, optionally followed by an incremental file growing across the boundary, restored through ltx.Compactor + DecodeDatabaseTo and compared at every page. thorough adds all page sizes for the snapshot path and one real SQLite database > 1 GiB (page size 65536). non-trivial = every case; distinct = canonical JSON"
 	root, err := os.MkdirTemp("", "c17-")
 	if err != nil {
 		hx.Fatal(err)
@@ -1810,6 +1810,32 @@ func main() {
 		snaps = append(snaps, genSnapFile(rnd, 65536, 0), genSnapFile(rnd, 65536, 1), genSnapFile(rnd, 16384, int(o.Seed%3)))
 		shorts = append(shorts, genShort(rnd, 65536, int(o.Seed%2), "first-sync"), genShort(rnd, 65536, 1, "verify-snapshot"))
 	}
+	// beyond 4 GiB (page size 65536: page 65537 starts at byte offset 2^32): data pages just below and
+	// just above the mark, distinct content in the low pages a 32-bit offset would alias them to
+	const mark = uint32(65537) // first page at an offset >= 4 GiB
+	for k := 0; k < 4; k++ { // cheap: incremental path, growth pages read from the file above 4 GiB
+		prev := mark - 3 - uint32(rnd.Intn(4))
+		c := Case{Kind: "wal", PageSize: 65536, PrevCommit: prev, Commit: mark + 2 + uint32(rnd.Intn(6)), Map: []uint32{1, 2, mark - 1, mark + 1}}
+		if k%2 == 1 {
+			c.Map = []uint32{3}
+		}
+		for p := uint32(1); p <= 4; p++ {
+			c.Marks = append(c.Marks, p)
+		}
+		for p := prev; p <= c.Commit; p++ {
+			c.Marks = append(c.Marks, p)
+		}
+		eval(c)
+		res.Count("wal:beyond-4GiB")
+	}
+	big := Case{Kind: "snapshot", PageSize: 65536, Commit: mark + 4 + uint32(rnd.Intn(5)), Map: []uint32{3, mark - 1, mark + 2},
+		Marks: []uint32{1, 2, 3, 4, 5, mark - 2, mark - 1, mark, mark + 1, mark + 2, mark + 3}}
+	big.Then = &Case{Kind: "wal", PageSize: 65536, Commit: big.Commit + 3, Map: []uint32{2, mark}, Marks: []uint32{big.Commit + 1, big.Commit + 2, big.Commit + 3}}
+	snaps = append(snaps, big)
+	if o.Tier == "thorough" {
+		// a real SQLite database whose file is already larger than 4 GiB (sparse), grown further in the WAL
+		shorts = append(shorts, ShortCase{PageSize: 65536, BasePages: mark + 3, Variant: "first-sync", Rows: 12})
+	}
 	// follow-mode restore over synthesised replicas that grow / shrink across the lock page
 	var follows []FollowCase
 	if o.Tier == "thorough" {
@@ -1817,6 +1843,8 @@ func main() {
 			follows = append(follows, genFollow(rnd, 65536, kind))
 		}
 		follows = append(follows, genFollow(rnd, 32768, 0), genFollow(rnd, 32768, 1), genFollow(rnd, 4096, 0), genFollow(rnd, 4096, 4))
+		// follower database beyond 4 GiB: pages applied above the mark, then a shrink back below it
+		follows = append(follows, FollowCase{PageSize: 65536, Initial: 1, Steps: []FStep{{Commit: 3}, {Commit: mark + 3}, {Commit: mark + 5, Level: 1}, {Commit: mark - 2}}})
 	} else {
 		follows = append(follows, genFollow(rnd, 65536, 0), genFollow(rnd, 65536, 1+int(o.Seed%4)))
 	}
